@@ -20,7 +20,8 @@ pub struct TBlock {
     pub lines: Vec<String>,
     /// bit set of INSIDE | TAG | ENDTAG
     pub classes: u8,
-    /// INSIDE flavour: 0 replace a line, 1 insert a line, 2 delete a line (pure deletion in the middle)
+    /// INSIDE flavour: 0 replace a line, 1 insert a line, 2 delete a line (pure deletion in the middle),
+    /// 3 the line is blanked: its text is replaced by an EMPTY line
     pub inside_kind: u8,
     pub inside_at: u8,
     /// TAG flavour: 0 substitute a character of an attribute value, 1 insert a character, 2 append an attribute
@@ -130,7 +131,7 @@ pub fn render_file(fi: usize, f: &TFile) -> RenderedFile {
             classes &= !INSIDE;
         }
         let inside_kind = if classes & INSIDE != 0 {
-            let mut k = b.inside_kind % 3;
+            let mut k = b.inside_kind % 4;
             // a pure deletion must stay a pure deletion (no other edit of this block, >= 2 lines) and needs no earlier shift (K1)
             if k == 2 && (classes != INSIDE || b.lines.len() < 2 || layout == 2) {
                 k = 0;
@@ -210,6 +211,11 @@ pub fn render_file(fi: usize, f: &TFile) -> RenderedFile {
                         1 => {
                             new.push(l.clone());
                             shifted = true;
+                        }
+                        3 => {
+                            // the new state has an empty line where the old state had text
+                            new.push(String::new());
+                            old.push(l.clone());
                         }
                         _ => {
                             // deletion between line k-1 and k (k >= 1 guaranteed below)
@@ -357,7 +363,7 @@ pub fn block_strategy() -> BoxedStrategy<TBlock> {
         proptest::collection::vec(rule, 0..3),
         proptest::collection::vec(0..LINES.len(), 0..6),
         prop_oneof![3 => Just(0u8), 3 => Just(INSIDE), 3 => Just(TAG), 2 => Just(ENDTAG), 2 => 0u8..8],
-        0u8..3,
+        0u8..4,
         any::<u8>(),
         0u8..3,
         0u8..2,
@@ -549,7 +555,7 @@ pub fn check_sweep(c: &SweepCase, probe: &Probe) -> Verdict {
 }
 
 pub fn run(run: &mut Run) {
-    run.rule = "random: 1..3 files (js, sh, rs, py, c) x 2..7 uniquely named non-nested blocks (own-line line comments, own-line block comments, everything on one line, or a start tag spread over three lines with the edited attribute on the middle one) separated by 5 padding lines, each with 0..2 rules (keep-sorted, keep-unique, line-pattern, line-count, check-lua echo/nil; violating or not by chance) and a *set* of edit classes: inside (replace / insert / pure deletion of a content line), tag-only (substitute or insert a character of an attribute value, append an attribute), end-tag-only (text after </block>, whitespace in </ block >), plus edits of padding lines (outside) and untouched blocks; multi-byte text before the tag in 25%; real `git diff -U0..10`; optional path arguments. Oracle: (a) `list` in diff mode = exactly the inside/tag-only blocks with is_content_modified exactly for inside; (b) diff-mode diagnostics = full-scan diagnostics restricted to the selected blocks' extents, exit status accordingly; (c) with path arguments = full scan of those files + diff-mode result of the others. enumerated sweep: every byte position of the start tag, the content, the whole end-tag comment and the code after it in 3 one-line block templates (ASCII, multi-byte before the tag, indented) x {substitute, insert, delete}. Non-trivial (random) = a violating untouched block, a violating selected block and a tag-only block; (sweep) = a region boundary or a position where byte and character columns differ.".into();
+    run.rule = "random: 1..3 files (js, sh, rs, py, c) x 2..7 uniquely named non-nested blocks (own-line line comments, own-line block comments, everything on one line, or a start tag spread over three lines with the edited attribute on the middle one) separated by 5 padding lines, each with 0..2 rules (keep-sorted, keep-unique, line-pattern, line-count, check-lua echo/nil; violating or not by chance) and a *set* of edit classes: inside (replace / insert / pure deletion / blanking of a content line), tag-only (substitute or insert a character of an attribute value, append an attribute), end-tag-only (text after </block>, whitespace in </ block >), plus edits of padding lines (outside) and untouched blocks; multi-byte text before the tag in 25%; real `git diff -U0..10`; optional path arguments. Oracle: (a) `list` in diff mode = exactly the inside/tag-only blocks with is_content_modified exactly for inside; (b) diff-mode diagnostics = full-scan diagnostics restricted to the selected blocks' extents, exit status accordingly; (c) with path arguments = full scan of those files + diff-mode result of the others. enumerated sweep: every byte position of the start tag, the content, the whole end-tag comment and the code after it in 3 one-line block templates (ASCII, multi-byte before the tag, indented) x {substitute, insert, delete}. Non-trivial (random) = a violating untouched block, a violating selected block and a tag-only block; (sweep) = a region boundary or a position where byte and character columns differ.".into();
     run.assumptions = vec![
         "pure line deletions are only generated where no earlier net line shift exists in the file (K1 excluded by construction, counted)".into(),
         "the sweep edits the OLD line only (the parsed NEW line is always the intact template); text of the start tag's comment around the tag is unspecified and not swept".into(),
